@@ -37,4 +37,19 @@ var props = map[string]propCfg{
 		Stub:           []string{"the server that produced the patch (harness builds it with binpatch.New/Add)", "transport damage (truncation, version corruption, blob bit flip, arbitrary read sizes) injected by the harness"},
 		RequiredProbes: []string{"in-place", "rewrite", "patch-truncated", "patch-version-corrupt", "patch-blob-bitflip", "over-4GiB-range"},
 	},
+	"C20": {
+		Level:    "exploration",
+		Quick:    tierCfg{Workers: 16, RunsPerWorker: 150, BudgetS: 40, MinimiseS: 10, CanaryEvery: 25},
+		Thorough: tierCfg{Workers: 16, RunsPerWorker: 20000, BudgetS: 600, MinimiseS: 60, CanaryEvery: 50},
+		Rule: "A run = real server.New with 1-3 scripted tokens (per-round outcome ok / slow ok / error / hang until the check timeout), interval in {1,5,60} s, timeout in {1,3,200} s, N in {1,2,3,5}, disable flag, 20-60 GET /health samples at virtual instants off the 10 ms event grid, and server.Close at a sampled instant (or before the first check ends) followed by 5 intervals + 2 timeouts of virtual time. Every sample is compared with a reference model fed only by the ping events the simulated tokens observed. A signature is (reason, expected status, N, token count) per sample plus (close in flight?, close early?); distinct_nontrivial counts distinct signatures.",
+		Assumptions: []string{
+			"sample instants are = 5 ms (mod 10 ms) and every scripted delay, interval and timeout is a multiple of 10 ms, so no sample shares a virtual instant with a state change",
+			"asynctimerchan=0 (Go >= 1.23 timer channel semantics) as testing/synctest requires",
+			"a check round that is already in progress when Close is called may finish pinging its remaining tokens; only a round that starts after Close is a violation",
+			"a loop is classified as spinning after 10000 iterations at one virtual instant (no wall clock involved)",
+		},
+		Real:           append([]string{"server.New/Close, healthCheckLoop/healthCheck/pingOne/Healthy/serveHealth, the chi handler chain (realip, logging, recovery, compresshttp middleware), tokencache.Metrics + tokencache.Cache wrappers, config.Normalize"}, commonReal...),
+		Stub:           []string{"token hardware (scripted \"sim\" token registered through token.Openers)", "wall clock (testing/synctest virtual clock)", "HTTP connection handling (handler called directly)"},
+		RequiredProbes: []string{"stale-503", "healthy-200", "disabled-503", "failed-rounds-503", "recovery-after-failure", "close-during-round", "close-before-first-round-ends", "ping-hang-until-timeout", "ping-error", "ping-slow"},
+	},
 }
